@@ -23,9 +23,73 @@ theorem impl_response_fc (s : SlaveCtx) (r : Req) (hr : InScope r) :
   rw [C05.impl_response_is_spec s r hr]
   exact spec_response_fc _ _ r hr
 
-/-- whatever the callback answers carries the request's function code or that code | 0x80 -/
-theorem response_matches_request (cfg : Cfg) (ctx : Units) (r : Req) (uid : Nat) (resp : Resp) (hr : InScope r)
-    (h : (callback cfg ctx r uid).2 = some resp) : resp.fc = r.fc ∨ resp.fc = r.fc ||| 0x80 := by
+/-- a data-access request is never answered with the (unsent) listen-only acknowledgement -/
+theorem impl_should_respond (s : SlaveCtx) (r : Req) (hr : InScope r) :
+    shouldRespond (Impl.serverExecute s r).2 = true := by
+  rw [C05.impl_response_is_spec s r hr]
+  cases r <;> simp only [InScope] at hr
+  all_goals
+    simp only [RegisterFile.step, access, effRead, effWrite, effMask, effReadWrite]
+    repeat' split
+    all_goals rfl
+
+/-- data-access requests: `execAny` is `serverExecute` (the catch-all sits in the same place) -/
+theorem execAny_dataAccess (ctl : Control) (s : SlaveCtx) (r : Req) (h : isDataAccess r = true) :
+    execAny ctl s r = (ctl, (Impl.serverExecute s r).1, (Impl.serverExecute s r).2) := by
+  unfold execAny execRaw Impl.serverExecute
+  rw [if_pos h]
+  cases Impl.execute s r with
+  | error e => rfl
+  | ok x => rfl
+
+theorem isDataAccess_iff (r : Req) : isDataAccess r = true ↔ InScope r := by
+  cases r <;> simp [isDataAccess, InScope]
+
+/-- the requests that do not touch the datastore are answered with their own function code as well (or with an
+    exception for it) -/
+theorem executeOther_fc (ctl : Control) (r : Req) (x : Control × Resp) (h : Impl.executeOther ctl r = .ok x) :
+    x.2.fc = r.fc ∨ x.2.fc = r.fc ||| 0x80 := by
+  cases r <;> simp only [Impl.executeOther] at h
+  case diag sub msg =>
+    unfold Impl.executeDiag at h
+    split at h
+    · cases h
+    · split at h
+      · cases h
+      · injection h with h; subst h; left; rfl
+  case readExceptionStatus => injection h with h; subst h; left; rfl
+  case getCommEventCounter => injection h with h; subst h; left; rfl
+  case getCommEventLog => injection h with h; subst h; left; rfl
+  case reportSlaveId => injection h with h; subst h; left; rfl
+  case readFileRecord => injection h with h; subst h; left; rfl
+  case writeFileRecord => injection h with h; subst h; left; rfl
+  case readFifo a =>
+    split at h <;> (injection h with h; subst h)
+    · right; rfl
+    · left; rfl
+  case readDeviceInfo sub rc oid =>
+    split at h
+    · cases h
+    · injection h with h; subst h; right; rfl
+    · injection h with h; subst h; left; rfl
+  all_goals cases h
+
+/-- every request class: what `execute` (under the catch-all) answers carries the request's function code or
+    that code | 0x80 -/
+theorem execAny_fc (ctl : Control) (s : SlaveCtx) (r : Req) :
+    (execAny ctl s r).2.2.fc = r.fc ∨ (execAny ctl s r).2.2.fc = r.fc ||| 0x80 := by
+  by_cases hd : isDataAccess r = true
+  · rw [execAny_dataAccess ctl s r hd]
+    exact impl_response_fc s r ((isDataAccess_iff r).1 hd)
+  · unfold execAny execRaw
+    rw [if_neg hd]
+    cases ho : Impl.executeOther ctl r with
+    | error e => right; rfl
+    | ok x => exact executeOther_fc ctl r x ho
+
+/-- whatever the callback answers carries the request's function code or that code | 0x80 — every request type -/
+theorem response_matches_request (cfg : Cfg) (w : World) (r : Req) (uid : Nat) (resp : Resp)
+    (h : (callback cfg w r uid).2 = some resp) : resp.fc = r.fc ∨ resp.fc = r.fc ||| 0x80 := by
   unfold callback at h
   split at h
   · cases h
@@ -36,90 +100,150 @@ theorem response_matches_request (cfg : Cfg) (ctx : Units) (r : Req) (uid : Nat)
     · rename_i s hs
       simp only [Option.some.injEq] at h
       subst h
-      exact impl_response_fc s r hr
+      exact execAny_fc w.ctl s r
 
 /-- nothing is sent for a broadcast request, nor for an absent unit when configured to ignore them -/
-theorem silent_cases (cfg : Cfg) (ctx : Units) (r : Req) (uid : Nat) :
-    ((cfg.broadcast && hasBroadcast cfg.frontend && uid == 0) = true → (callback cfg ctx r uid).2 = none) ∧
-    ((cfg.broadcast && hasBroadcast cfg.frontend && uid == 0) = false → (∀ s, ctx.getItem uid ≠ .ok s) →
-      cfg.ignoreMissing = true → (callback cfg ctx r uid).2 = none) := by
+theorem silent_cases (cfg : Cfg) (w : World) (r : Req) (uid : Nat) :
+    ((cfg.broadcast && hasBroadcast cfg.frontend && uid == 0) = true → (callback cfg w r uid).2 = none) ∧
+    ((cfg.broadcast && hasBroadcast cfg.frontend && uid == 0) = false → (∀ s, w.units.getItem uid ≠ .ok s) →
+      cfg.ignoreMissing = true → (callback cfg w r uid).2 = none) := by
   constructor
   · intro h; unfold callback; rw [if_pos h]
   · intro h hmiss hign
     unfold callback
     rw [if_neg (by simp [h])]
-    cases hg : ctx.getItem uid with
+    cases hg : w.units.getItem uid with
     | error e => simp [hign]
     | ok s => exact absurd hg (hmiss s)
 
+/-- is this delivery answered with a frame: the callback returns a response and the response class is one that is
+    sent (everything but the listen-only acknowledgement) -/
+def isAnswered (cfg : Cfg) (w : World) (r : Req) (uid : Nat) : Bool :=
+  match (callback cfg w r uid).2 with
+  | some rp => shouldRespond rp
+  | none => false
+
+/-- the world after one delivery has been handled (callback, then the Twisted message counter) -/
+def afterDelivery (cfg : Cfg) (w : World) (r : Req) (uid : Nat) : World :=
+  if isAnswered cfg w r uid then countMessage cfg (callback cfg w r uid).1 else (callback cfg w r uid).1
+
 /-- the frames written for one receive call: one per answered delivery, in order, and none without a delivery -/
-def answered (cfg : Cfg) : Units → List (Ev Req) → Nat
+def answered (cfg : Cfg) : World → List (Ev Req) → Nat
   | _, [] => 0
   | _, .raised _ :: _ => 0
-  | ctx, .deliver r uid _ _ :: rest =>
-    (if (callback cfg ctx r uid).2.isSome then 1 else 0) + answered cfg (callback cfg ctx r uid).1 rest
+  | w, .deliver r uid _ _ :: rest =>
+    (if isAnswered cfg w r uid then 1 else 0) + answered cfg (afterDelivery cfg w r uid) rest
 
-theorem frames_le_answered (cfg : Cfg) (ctx : Units) (evs : List (Ev Req)) :
-    (handleEvents cfg ctx evs).2.1.length ≤ answered cfg ctx evs := by
-  induction evs generalizing ctx with
+/-! the four ways one delivery is handled -/
+
+theorem handle_cons_none {cfg : Cfg} {w c1 : World} {r : Req} {uid : Nat} (tid pid : Nat) (rest : List (Ev Req))
+    (h : callback cfg w r uid = (c1, none)) :
+    handleEvents cfg w (.deliver r uid tid pid :: rest) = handleEvents cfg c1 rest := by
+  simp only [handleEvents, h]
+
+theorem handle_cons_silent {cfg : Cfg} {w c1 : World} {r : Req} {uid : Nat} {rp : Resp} (tid pid : Nat)
+    (rest : List (Ev Req)) (h : callback cfg w r uid = (c1, some rp)) (hs : shouldRespond rp = false) :
+    handleEvents cfg w (.deliver r uid tid pid :: rest) = handleEvents cfg c1 rest := by
+  simp only [handleEvents, h, hs, Bool.not_false, if_true]
+
+theorem handle_cons_err {cfg : Cfg} {w c1 : World} {r : Req} {uid tid pid : Nat} {rp : Resp} {e : PyErr}
+    (rest : List (Ev Req)) (h : callback cfg w r uid = (c1, some rp)) (hs : shouldRespond rp = true)
+    (hf : frameResp cfg rp uid tid pid = .error e) :
+    handleEvents cfg w (.deliver r uid tid pid :: rest) = (countMessage cfg c1, [], some e) := by
+  simp only [handleEvents, h, hs, Bool.not_true, Bool.false_eq_true, if_false, hf]
+
+theorem handle_cons_ok {cfg : Cfg} {w c1 : World} {r : Req} {uid tid pid : Nat} {rp : Resp} {f : Bytes}
+    (rest : List (Ev Req)) (h : callback cfg w r uid = (c1, some rp)) (hs : shouldRespond rp = true)
+    (hf : frameResp cfg rp uid tid pid = .ok f) :
+    handleEvents cfg w (.deliver r uid tid pid :: rest) =
+      ((handleEvents cfg (countMessage cfg c1) rest).1, f :: (handleEvents cfg (countMessage cfg c1) rest).2.1,
+       (handleEvents cfg (countMessage cfg c1) rest).2.2) := by
+  simp only [handleEvents, h, hs, Bool.not_true, Bool.false_eq_true, if_false, hf]
+
+theorem answered_cons_no {cfg : Cfg} {w c1 : World} {r : Req} {uid : Nat} (tid pid : Nat) (rest : List (Ev Req))
+    {c2 : Option Resp} (h : callback cfg w r uid = (c1, c2)) (hn : ∀ rp, c2 = some rp → shouldRespond rp = false) :
+    answered cfg w (.deliver r uid tid pid :: rest) = answered cfg c1 rest := by
+  have hi : isAnswered cfg w r uid = false := by
+    unfold isAnswered; rw [h]
+    cases c2 with
+    | none => rfl
+    | some rp => exact hn rp rfl
+  simp only [answered, afterDelivery, hi, Bool.false_eq_true, if_false, Nat.zero_add, h]
+
+theorem answered_cons_yes {cfg : Cfg} {w c1 : World} {r : Req} {uid : Nat} (tid pid : Nat) (rest : List (Ev Req))
+    {rp : Resp} (h : callback cfg w r uid = (c1, some rp)) (hs : shouldRespond rp = true) :
+    answered cfg w (.deliver r uid tid pid :: rest) = 1 + answered cfg (countMessage cfg c1) rest := by
+  have hi : isAnswered cfg w r uid = true := by
+    unfold isAnswered; rw [h]; exact hs
+  simp only [answered, afterDelivery, hi, if_true, h]
+
+theorem frames_le_answered (cfg : Cfg) (w : World) (evs : List (Ev Req)) :
+    (handleEvents cfg w evs).2.1.length ≤ answered cfg w evs := by
+  induction evs generalizing w with
   | nil => simp [handleEvents, answered]
   | cons e rest ih =>
     cases e with
     | raised err => simp [handleEvents, answered]
     | deliver r uid tid pid =>
-      simp only [handleEvents, answered]
-      cases hc : (callback cfg ctx r uid).2 with
-      | none =>
-        have := ih (callback cfg ctx r uid).1
-        simp only [hc, Option.isSome_none, Bool.false_eq_true, if_false, Nat.zero_add]
-        rcases hcb : callback cfg ctx r uid with ⟨c1, c2⟩
-        simp only [hcb] at hc this ⊢
-        subst hc
-        exact this
-      | some rp =>
-        rcases hcb : callback cfg ctx r uid with ⟨c1, c2⟩
-        simp only [hcb] at hc ⊢
-        subst hc
-        simp only [Option.isSome_some, if_true]
-        cases hf : frameResp cfg rp uid tid pid with
-        | error e => simp
-        | ok f =>
-          have := ih c1
-          simp only [List.length_cons]
-          exact Nat.succ_le_of_lt (Nat.lt_of_le_of_lt this (by omega))
+      cases hcb : callback cfg w r uid with
+      | mk c1 c2 =>
+        cases c2 with
+        | none =>
+          rw [handle_cons_none tid pid rest hcb, answered_cons_no tid pid rest hcb (by intro rp h; cases h)]
+          exact ih c1
+        | some rp =>
+          cases hs : shouldRespond rp with
+          | false =>
+            rw [handle_cons_silent tid pid rest hcb hs,
+              answered_cons_no tid pid rest hcb (by intro rp' h; injection h with h; subst h; exact hs)]
+            exact ih c1
+          | true =>
+            rw [answered_cons_yes tid pid rest hcb hs]
+            cases hf : frameResp cfg rp uid tid pid with
+            | error e => rw [handle_cons_err rest hcb hs hf]; simp
+            | ok f =>
+              rw [handle_cons_ok rest hcb hs hf]
+              have := ih (countMessage cfg c1)
+              simp only [List.length_cons]
+              omega
 
 /-- … exactly one per answered delivery when nothing went wrong in the receive call (no undecodable frame, every
     response could be framed): the count is exact, not just bounded -/
-theorem frames_eq_answered (cfg : Cfg) (ctx : Units) (evs : List (Ev Req))
-    (hok : (handleEvents cfg ctx evs).2.2 = none) :
-    (handleEvents cfg ctx evs).2.1.length = answered cfg ctx evs := by
-  induction evs generalizing ctx with
+theorem frames_eq_answered (cfg : Cfg) (w : World) (evs : List (Ev Req))
+    (hok : (handleEvents cfg w evs).2.2 = none) :
+    (handleEvents cfg w evs).2.1.length = answered cfg w evs := by
+  induction evs generalizing w with
   | nil => simp [handleEvents, answered]
   | cons e rest ih =>
     cases e with
     | raised err => simp [handleEvents] at hok
     | deliver r uid tid pid =>
-      simp only [handleEvents, answered] at hok ⊢
-      rcases hcb : callback cfg ctx r uid with ⟨c1, c2⟩
-      simp only [hcb] at hok ⊢
-      cases c2 with
-      | none =>
-        simp only [] at hok ⊢
-        simpa using ih c1 hok
-      | some rp =>
-        simp only [] at hok ⊢
-        cases hf : frameResp cfg rp uid tid pid with
-        | error e => simp [hf] at hok
-        | ok f =>
-          simp only [hf] at hok ⊢
-          simp only [List.length_cons, Option.isSome_some, if_true]
-          have := ih c1 hok
-          show (handleEvents cfg c1 rest).snd.fst.length + 1 = 1 + answered cfg c1 rest
-          rw [this, Nat.add_comm]
+      cases hcb : callback cfg w r uid with
+      | mk c1 c2 =>
+        cases c2 with
+        | none =>
+          rw [handle_cons_none tid pid rest hcb] at hok ⊢
+          rw [answered_cons_no tid pid rest hcb (by intro rp h; cases h)]
+          exact ih c1 hok
+        | some rp =>
+          cases hs : shouldRespond rp with
+          | false =>
+            rw [handle_cons_silent tid pid rest hcb hs] at hok ⊢
+            rw [answered_cons_no tid pid rest hcb (by intro rp' h; injection h with h; subst h; exact hs)]
+            exact ih c1 hok
+          | true =>
+            rw [answered_cons_yes tid pid rest hcb hs]
+            cases hf : frameResp cfg rp uid tid pid with
+            | error e => rw [handle_cons_err rest hcb hs hf] at hok; cases hok
+            | ok f =>
+              rw [handle_cons_ok rest hcb hs hf] at hok ⊢
+              have := ih (countMessage cfg c1) hok
+              simp only [List.length_cons]
+              omega
 
 /-- it never emits bytes that are not a response to a received request -/
-theorem no_spontaneous_output (cfg : Cfg) (ctx : Units) (evs : List (Ev Req))
-    (h : ∀ e ∈ evs, ∀ r u t p, e ≠ .deliver r u t p) : (handleEvents cfg ctx evs).2.1 = [] := by
+theorem no_spontaneous_output (cfg : Cfg) (w : World) (evs : List (Ev Req))
+    (h : ∀ e ∈ evs, ∀ r u t p, e ≠ .deliver r u t p) : (handleEvents cfg w evs).2.1 = [] := by
   cases evs with
   | nil => rfl
   | cons e rest =>
@@ -128,33 +252,41 @@ theorem no_spontaneous_output (cfg : Cfg) (ctx : Units) (evs : List (Ev Req))
     | deliver r uid tid pid => exact absurd rfl (h _ (by simp) r uid tid pid)
 
 /-- every frame written is the framing of a response with the request's unit, transaction and protocol ids -/
-theorem frames_carry_request_ids (cfg : Cfg) (ctx : Units) (evs : List (Ev Req)) :
-    ∀ f ∈ (handleEvents cfg ctx evs).2.1, ∃ r uid tid pid c rp,
+theorem frames_carry_request_ids (cfg : Cfg) (w : World) (evs : List (Ev Req)) :
+    ∀ f ∈ (handleEvents cfg w evs).2.1, ∃ r uid tid pid c rp,
       Ev.deliver r uid tid pid ∈ evs ∧ (callback cfg c r uid).2 = some rp ∧ frameResp cfg rp uid tid pid = .ok f := by
-  induction evs generalizing ctx with
+  induction evs generalizing w with
   | nil => intro f hf; simp [handleEvents] at hf
   | cons e rest ih =>
     cases e with
     | raised err => intro f hf; simp [handleEvents] at hf
     | deliver r uid tid pid =>
       intro f hf
-      simp only [handleEvents] at hf
-      rcases hcb : callback cfg ctx r uid with ⟨c1, c2⟩
-      simp only [hcb] at hf
-      cases c2 with
-      | none =>
-        simp only [] at hf
-        obtain ⟨r', u', t', p', c, rp, h1, h2, h3⟩ := ih c1 f hf
+      have lift : (∃ r' u' t' p' c rp, Ev.deliver r' u' t' p' ∈ rest ∧ (callback cfg c r' u').2 = some rp ∧
+            frameResp cfg rp u' t' p' = .ok f) →
+          ∃ r' u' t' p' c rp, Ev.deliver r' u' t' p' ∈ Ev.deliver r uid tid pid :: rest ∧
+            (callback cfg c r' u').2 = some rp ∧ frameResp cfg rp u' t' p' = .ok f := by
+        rintro ⟨r', u', t', p', c, rp, h1, h2, h3⟩
         exact ⟨r', u', t', p', c, rp, by simp [h1], h2, h3⟩
-      | some rp =>
-        simp only [] at hf
-        cases hfr : frameResp cfg rp uid tid pid with
-        | error e => simp [hfr] at hf
-        | ok g =>
-          simp only [hfr, List.mem_cons] at hf
-          rcases hf with rfl | hf
-          · exact ⟨r, uid, tid, pid, ctx, rp, by simp, by rw [hcb], hfr⟩
-          · obtain ⟨r', u', t', p', c, rp', h1, h2, h3⟩ := ih c1 f hf
-            exact ⟨r', u', t', p', c, rp', by simp [h1], h2, h3⟩
+      cases hcb : callback cfg w r uid with
+      | mk c1 c2 =>
+        cases c2 with
+        | none =>
+          rw [handle_cons_none tid pid rest hcb] at hf
+          exact lift (ih c1 f hf)
+        | some rp =>
+          cases hs : shouldRespond rp with
+          | false =>
+            rw [handle_cons_silent tid pid rest hcb hs] at hf
+            exact lift (ih c1 f hf)
+          | true =>
+            cases hfr : frameResp cfg rp uid tid pid with
+            | error e => rw [handle_cons_err rest hcb hs hfr] at hf; simp at hf
+            | ok g =>
+              rw [handle_cons_ok rest hcb hs hfr] at hf
+              simp only [List.mem_cons] at hf
+              rcases hf with rfl | hf
+              · exact ⟨r, uid, tid, pid, w, rp, by simp, by rw [hcb], hfr⟩
+              · exact lift (ih (countMessage cfg c1) f hf)
 
 end Pymodbus.Props.C09
